@@ -75,8 +75,15 @@ class SqlWorld:
         return f"ok rows0={proto.show_rows(rows0)} rows1={proto.show_rows(rows1)}"
 
 
+class NoSerials:
+    """Serial-free printing inside hook logs (numbering must not be disturbed mid-processing)."""
+
+    def of(self, obj) -> str:
+        return "?"
+
+
 def short(rel, world) -> str:
-    return proto.show_rel(rel, world.ser, world.engine_names)
+    return proto.show_rel(rel, NoSerials(), world.engine_names)
 
 
 class HarnessProcessor(Processor):
@@ -95,7 +102,10 @@ class HarnessProcessor(Processor):
     def transfer(self, source, destination, materialize_as: str | None) -> Any:
         if not self.quiet:
             dn = self.world.engine_names.get(id(destination), "e?")
-            self.log.append(f"<transfer {short(source, self.world)} {dn} {materialize_as or '-'}>")
+            self.log.append(
+                f"<transfer {short(source, self.world)} {dn} {materialize_as or '-'} "
+                f"triv={proto.show_bool(source.is_trivial)}>"
+            )
         rows = self.eval_single(source)
         if isinstance(destination, iteration.Engine):
             return iteration.RowSequence(rows)
@@ -104,7 +114,9 @@ class HarnessProcessor(Processor):
 
     def materialize(self, target, name: str) -> Any:
         if not self.quiet:
-            self.log.append(f"<materialize {short(target, self.world)} {name}>")
+            self.log.append(
+                f"<materialize {short(target, self.world)} {name} triv={proto.show_bool(target.is_trivial)}>"
+            )
         rows = self.eval_single(target)
         if isinstance(target.engine, iteration.Engine):
             return iteration.RowSequence(rows)
